@@ -13,33 +13,36 @@ From BU Require Import Lib.Bytes Merkle.Merkle Merkle.PmtSpec Merkle.MerkleArith
 
 Local Open Scope N_scope.
 
-(* build_is_spec: for every block with 1 <= n < 2^31 transactions and every selection, each builder
-   returns the canonical message and the positions of the chosen transactions *)
+(* build_is_spec: for every block with 1 <= n <= add_tx_hash_cap (= 12800001 = wire's maxTxPerBlock():
+   beyond it AddTxHash refuses hashes and calcBlock discards that error, which the models do not
+   reproduce - see Merkle.v "the domain on which this file is the code"; the cap is below 2^31, so the
+   uint32 arithmetic of calcTreeWidth cannot wrap either) and every selection, each builder returns the
+   canonical message and the positions of the chosen transactions *)
 Theorem C11_build_is_spec_txnset : forall node_hash header leaves,
-  0 < N.of_nat (length leaves) -> N.of_nat (length leaves) < 2 ^ 31 -> forall txnset,
+  0 < N.of_nat (length leaves) -> N.of_nat (length leaves) <= add_tx_hash_cap -> forall txnset,
   let sel := map (fun h => tx_in_set h txnset) leaves in
   exists H, is_height (N.of_nat (length leaves)) H /\
     mb_new_with_txnset node_hash header leaves txnset =
     Ok (spec_msg node_hash header leaves sel H, map fst (chosen leaves sel)).
-Proof. exact build_is_spec_txnset. Qed.
+Proof. exact build_is_spec_txnset_cap. Qed.
 Print Assumptions C11_build_is_spec_txnset.
 
 Theorem C11_build_is_spec_filter : forall node_hash header leaves,
-  0 < N.of_nat (length leaves) -> N.of_nat (length leaves) < 2 ^ 31 -> forall mm : nat -> bool,
+  0 < N.of_nat (length leaves) -> N.of_nat (length leaves) <= add_tx_hash_cap -> forall mm : nat -> bool,
   let sel := map mm (seq 0 (length leaves)) in
   exists H, is_height (N.of_nat (length leaves)) H /\
     mb_new_with_filter node_hash header leaves mm =
     Ok (spec_msg node_hash header leaves sel H, map fst (chosen leaves sel)).
-Proof. exact build_is_spec_filter. Qed.
+Proof. exact build_is_spec_filter_cap. Qed.
 Print Assumptions C11_build_is_spec_filter.
 
 Theorem C11_build_is_spec_bloom : forall node_hash header leaves,
-  0 < N.of_nat (length leaves) -> N.of_nat (length leaves) < 2 ^ 31 -> forall mm : nat -> bool,
+  0 < N.of_nat (length leaves) -> N.of_nat (length leaves) <= add_tx_hash_cap -> forall mm : nat -> bool,
   let sel := map mm (seq 0 (length leaves)) in
   exists H, is_height (N.of_nat (length leaves)) H /\
     bl_new node_hash header leaves mm =
     Ok (spec_msg node_hash header leaves sel H, map fst (chosen leaves sel)).
-Proof. exact build_is_spec_bloom. Qed.
+Proof. exact build_is_spec_bloom_cap. Qed.
 Print Assumptions C11_build_is_spec_bloom.
 
 (* membership in the transaction set is membership *)
@@ -108,28 +111,33 @@ Theorem C11_extract_build : forall node_hash,
 Proof. exact extract_build. Qed.
 Print Assumptions C11_extract_build.
 
-(* end to end for the two ways of choosing *)
+(* end to end for the two ways of choosing; the built message lies in the domain on which the model of
+   extraction is the code ([msg_in_domain]: fewer than 2^32 flag bits and hashes) *)
 Theorem C11_build_then_extract_txnset : forall node_hash,
   (forall a b c d, node_hash a b = node_hash c d -> a = c /\ b = d) ->
   forall header leaves txnset maxtx,
   leaves <> [] -> NoDup leaves ->
+  N.of_nat (length leaves) <= add_tx_hash_cap ->
   N.of_nat (length leaves) <= maxtx -> maxtx <= 2 ^ 30 ->
   let sel := map (fun h => tx_in_set h txnset) leaves in
   exists m, mb_new_with_txnset node_hash header leaves txnset = Ok (m, map fst (chosen leaves sel)) /\
+            msg_in_domain m /\
             extract node_hash maxtx m = Ok (merkle_root node_hash leaves, chosen leaves sel).
-Proof. exact build_then_extract_txnset. Qed.
+Proof. exact build_then_extract_txnset_cap. Qed.
 Print Assumptions C11_build_then_extract_txnset.
 
 Theorem C11_build_then_extract_filter : forall node_hash,
   (forall a b c d, node_hash a b = node_hash c d -> a = c /\ b = d) ->
   forall header leaves (mm : nat -> bool) maxtx,
   leaves <> [] -> NoDup leaves ->
+  N.of_nat (length leaves) <= add_tx_hash_cap ->
   N.of_nat (length leaves) <= maxtx -> maxtx <= 2 ^ 30 ->
   let sel := map mm (seq 0 (length leaves)) in
   exists m, mb_new_with_filter node_hash header leaves mm = Ok (m, map fst (chosen leaves sel)) /\
             bl_new node_hash header leaves mm = Ok (m, map fst (chosen leaves sel)) /\
+            msg_in_domain m /\
             extract node_hash maxtx m = Ok (merkle_root node_hash leaves, chosen leaves sel).
-Proof. exact build_then_extract_filter. Qed.
+Proof. exact build_then_extract_filter_cap. Qed.
 Print Assumptions C11_build_then_extract_filter.
 
 (* without distinct transaction ids the round trip fails (and must: C12's equal-children rule) *)
